@@ -345,6 +345,10 @@ def run(ctx: Ctx) -> None:
     cfg_rule(ctx)
     wiring_rule(ctx, "R03.wire", which=("data",), fields=("num_index_bits", "num_block_bits", "associativity", "replacement_strategy"))
     source_rule(ctx)
+    # what the set hands back is what was stored for that tag: the set's read / write against their reference (C10's / C12's rules)
+    from ..cachesetspec import dirty_rule, notify_rule
+    notify_rule(ctx, "R03.set")
+    dirty_rule(ctx, "R03.set")
     # a reload must not leave a block behind: a stale (dirty) block of the previous program would be answered / written back into
     # the fresh memory (C12's / C13's reset rule)
     from ..resetrule import check_reset
